@@ -132,3 +132,51 @@ pub async fn dial_preface(ctx: &ctx::Ctx, addr: std::net::SocketAddr, consensus:
     let ep = if consensus { crate::preface::Endpoint::ConsensusNet } else { crate::preface::Endpoint::GossipNet };
     crate::preface::connect(ctx, addr, ep).await.map(Dialed).map_err(|e| format!("{e:?}").lines().next().unwrap_or("").to_string())
 }
+
+// ---------------------------------------------------------------------------------------------
+// A scripted gossip peer: announces a block range and answers `get_block` as the harness says
+
+struct BlockServer {
+    respond: Arc<dyn Fn(u64) -> Option<validator::Block> + Send + Sync>,
+    requested: Arc<std::sync::Mutex<Vec<u64>>>,
+}
+
+#[async_trait::async_trait]
+impl crate::rpc::Handler<crate::rpc::get_block::Rpc> for &BlockServer {
+    fn max_req_size(&self) -> usize {
+        zksync_protobuf::kB
+    }
+    async fn handle(&self, _ctx: &ctx::Ctx, req: crate::rpc::get_block::Req) -> anyhow::Result<crate::rpc::get_block::Resp> {
+        self.requested.lock().unwrap().push(req.0 .0);
+        Ok(crate::rpc::get_block::Resp((self.respond)(req.0 .0)))
+    }
+}
+
+/// Runs the real `rpc::Service` over an authenticated connection as a peer that announces `state` once and serves
+/// `get_block(n)` with `respond(n)`; every requested number is appended to `requested`.
+/// Returns how the connection ended (when the node hangs up, or `ctx` is cancelled).
+pub async fn serve_blocks(
+    ctx: &ctx::Ctx,
+    conn: Dialed,
+    state: BlockStoreState,
+    respond: Arc<dyn Fn(u64) -> Option<validator::Block> + Send + Sync>,
+    requested: Arc<std::sync::Mutex<Vec<u64>>>,
+) -> String {
+    use zksync_concurrency::{limiter, scope};
+    let server = BlockServer { respond, requested };
+    let announce = crate::rpc::Client::<crate::rpc::push_block_store_state::Rpc>::new(ctx, limiter::Rate::INF);
+    let res: Result<(), ctx::Error> = scope::run!(ctx, |ctx, s| async {
+        let service = crate::rpc::Service::new()
+            .add_client(&announce)
+            .add_server::<crate::rpc::get_block::Rpc>(ctx, &server, limiter::Rate::INF)
+            .add_server(ctx, crate::rpc::ping::Server, crate::rpc::ping::RATE);
+        s.spawn(async {
+            let req = crate::rpc::push_block_store_state::Req { state };
+            let _ = announce.call(ctx, &req, zksync_protobuf::kB).await;
+            Ok(())
+        });
+        service.run(ctx, conn.0).await.map_err(|e| ctx::Error::Internal(anyhow::format_err!("{e}")))
+    })
+    .await;
+    format!("{res:?}").lines().next().unwrap_or("").chars().take(160).collect()
+}
